@@ -326,6 +326,16 @@ func (e *Env) ident(name string) Term {
 			if p.Name() == name {
 				// free variables are pointers to the captured variable when captured by reference
 				t := fr.free[i]
+				if pt, ok := p.Type().Underlying().(*types.Pointer); ok && fe.eng.freeVarIsCell(fr.fn, i) && fe.eng.freeVarReadOnly(fr.fn, i) {
+					n := fr.prefix + "cv_" + mangle(p.Name())
+					k := fe.sorts.SortOf(pt.Elem())
+					fe.declConst(n, k)
+					if !fe.cvSeen[n] {
+						fe.cvSeen[n] = true
+						fe.assumeTypeInv(n, pt.Elem())
+					}
+					return Term{n, k, pt.Elem()}
+				}
 				if pt, ok := p.Type().Underlying().(*types.Pointer); ok && fe.eng.freeVarIsCell(fr.fn, i) {
 					return Term{fe.loadRef(e.st, t.S, pt.Elem()), fe.sorts.SortOf(pt.Elem()), pt.Elem()}
 				}
